@@ -157,6 +157,11 @@ func (s *ship1) state() model.ShipMessageExchangeState {
 // deliver hands one frame to the unit under test, as the read pump would.
 func (s *ship1) deliver(f string, class string) {
 	st := s.state()
+	// like the ws read pump: nothing is handed over once the transport is known
+	// to be closed (checked right before the hand-over, no schedule point between)
+	if s.o.lateFrames == 0 && s.tw.isClosed() {
+		return
+	}
 	s.x.Ev("rx", class, "", int(st))
 	s.x.SigAdd(fmt.Sprintf("rx:%d:%s", st, class))
 	s.conn.HandleIncomingWebsocketMessage([]byte(f))
